@@ -195,7 +195,7 @@ def _pc(m):
 def model_cell(c):
     return {"number": c["number"],
             "imp": [{"p": _pc(e["p"]), "v": e["val"] or [0, 1], "cl": [_pc(x) for x in e["cl"]]} for e in c["imp_entries"]],
-            "vol": c["vol"], "u": c["u"], "ntr": c["ntr_raw"], "lat": c["lat"], "fill": c["fill"], "fill_complex": c["fill_complex"]}
+            "vol": c["vol"], "u": c["u"], "ntr": c["ntr_raw"], "lat": c["lat"], "fill": c["fill"], "fill_complex": c["fill_complex"], "set_in": c["set_in"]}
 
 
 def model_state_json(s):
@@ -217,7 +217,7 @@ def model_op(op, pre):
             else:
                 imp.append({"p": _pc(m), "v": f, "cl": [_pc(m)]})
         return ["append", {"number": s["number"], "imp": imp, "vol": ci.frac(s.get("vol")), "u": s.get("u"), "ntr": False,
-                           "lat": s.get("lat"), "fill": s.get("fill"), "fill_complex": False}]
+                           "lat": s.get("lat"), "fill": s.get("fill"), "fill_complex": False, "set_in": [False] * 5}]
     if name == "imp":
         # the parsed tree of `imp:n,p=1` is ONE object under both particles (C03's finding): which particles share the
         # edited particle's tree is read off the live objects, the model sets them all
@@ -460,6 +460,8 @@ def compare_case(case, ri, dens, rm, nsteps):
             if "text" in st:
                 den = dens[k]
                 k += 1
+            if st["out"] == "IllegalState":
+                return None  # validate() of an incomplete object: not modelled, the history ends here
             if st["out"] != "ok":
                 want = "ValueError" if st["out"] == "ValueError:fill-complex" else st["out"]
                 if sm.get("error") != want:
@@ -564,6 +566,7 @@ def run(chk):
             diff = compare_case(pure, ri, dens[i], model[i], nsteps)
             if diff is not None:
                 chk.disagreements_checked += 1
+                chk.count("disagreement:" + diff[1][:60])
                 ri2, dens2 = run_one(pure)
                 b2 = build_model_case(pure, ri2)
                 rm2 = drv.batch([b2[0]])[0] if b2 else None
